@@ -118,6 +118,12 @@ def OTO.popitem (s : OTO α) : OTO α × Ret α :=
   | some (k, v) => (⟨s.fwd.dropLast, erase v s.inv⟩, .pair k v)
   | none => (s, .err .KeyError)
 
+/-- `popitem()` where the pair the implementation returned is known: any pair the object holds is
+    accepted (the property does not fix WHICH pair goes; `dict` says LIFO, which is the fallback).
+    Lets the correspondence ignore the iteration order of the two dicts. -/
+def OTO.popitemAs (s : OTO α) (k v : α) : OTO α × Ret α :=
+  if lookup k s.fwd = some v then (⟨erase k s.fwd, erase v s.inv⟩, .pair k v) else s.popitem
+
 /-- `OneToOne.setdefault(key, default)`; returns `self[key]` -/
 def OTO.setdefault (s : OTO α) (k d : α) : OTO α × Ret α :=
   match lookup k s.fwd with
@@ -154,6 +160,7 @@ inductive OtoOp (α : Type) where
   | setdefault (k d : α)
   | pop (k : α) (d : Option α)
   | popitem
+  | popitemAs (k v : α)
   | clear
 deriving Repr
 
@@ -164,6 +171,7 @@ def OTO.step (s : OTO α) : OtoOp α → OTO α × Ret α
   | .setdefault k d => s.setdefault k d
   | .pop k d => s.pop k d
   | .popitem => s.popitem
+  | .popitemAs k v => s.popitemAs k v
   | .clear => (s.clear, .none)
 
 /-- the call made through the forward object (`side = false`) or through `.inv` -/
